@@ -27,14 +27,25 @@ def filter_calls(calls, results, keep, max_revert_frac=0.25):
     ok = [i for i in idx if results[i][0] == "ok"]
     rv = [i for i in idx if results[i][0] != "ok"]
     allow = max(1, int(max_revert_frac * max(len(ok), 1)))
-    chosen = sorted(ok + rv[:allow])
-    # cutting a suffix is always sound; cutting a reverted call in the middle is sound too
-    chosen = chosen[:keep]
+    rv_probe = [i for i in rv if getattr(calls[i], "probe", False)]      # boundary probes: the revert IS the test
+    rv_rand = [i for i in rv if not getattr(calls[i], "probe", False)]
+    chosen = sorted(ok + rv_probe + rv_rand[:allow])
+    # cutting a suffix is always sound; cutting a reverted call in the middle is sound too.  The cap counts the random
+    # calls only: probe calls (fixed boundary arguments of the operator/feature probes) are cheap and are all kept.
+    cut, n_rand = len(chosen), 0
+    for pos, i in enumerate(chosen):
+        if not getattr(calls[i], "probe", False):
+            n_rand += 1
+            if n_rand > keep:
+                cut = pos
+                break
+    chosen = chosen[:cut]
     return [calls[i] for i in chosen], [results[i] for i in chosen], chosen
 
 
-def generate(ctx, salt, nprog, features=None, ncalls=8, size=1.0, stats=None):
-    """-> list of dict(prog, calls, model=(results, final)), statistics"""
+def generate(ctx, salt, nprog, features=None, ncalls=8, size=1.0, stats=None, nprobe=0):
+    """-> list of dict(prog, calls, model=(results, final)), statistics.  The first `nprobe` programs consist of probe
+    functions only (operator table, boundaries): small, so the quick tier runs them under every configuration."""
     stats = stats if stats is not None else {}
     stats.setdefault("generated", 0)
     stats.setdefault("rejected_by_compiler", 0)
@@ -42,7 +53,8 @@ def generate(ctx, salt, nprog, features=None, ncalls=8, size=1.0, stats=None):
     progs = []
     k = 0
     while len(progs) < nprog and k < nprog * 3:
-        g = Gen(ctx.rng(f"{salt}:{k}"), features, size)
+        po = len(progs) < nprobe
+        g = Gen(ctx.rng(f"{salt}:{k}"), features, size, index=len(progs) + nprog * (ctx.seed % 8), probe_only=po)
         k += 1
         p = g.program()
         stats["generated"] += 1
@@ -53,12 +65,13 @@ def generate(ctx, salt, nprog, features=None, ncalls=8, size=1.0, stats=None):
             key = type(e).__name__
             stats["reject_reasons"][key] = stats["reject_reasons"].get(key, 0) + 1
             continue
-        progs.append((p, g.calls(p, ncalls * 2)))
+        progs.append((p, g.calls(p, 2 if po else ncalls * 2)))
     models = H.model_eval(progs, f"{ctx.pid}{salt}")
     items = []
     for (p, calls), (res, fin) in zip(progs, models):
         cs, rs, chosen = filter_calls(calls, res, ncalls + 12, max_revert_frac=0.4)
-        items.append({"prog": p, "calls": cs, "all_calls": calls, "chosen": chosen, "model": (rs, None)})
+        items.append({"prog": p, "calls": cs, "all_calls": calls, "chosen": chosen, "model": (rs, None),
+                      "all_configs": len(items) < nprobe})
     # final storage must be recomputed for the kept prefix: re-evaluate the kept sequences
     models2 = H.model_eval([(it["prog"], it["calls"]) for it in items], f"{ctx.pid}{salt}b")
     for it, m in zip(items, models2):
@@ -100,7 +113,7 @@ def sample_configs(items, cfgs, per_item, salt=0):
     about the same number of programs (items carrying a fixed key - minimized past failures - keep all configurations)"""
     n = len(cfgs)
     for i, it in enumerate(items):
-        if it.get("key") or per_item >= n:
+        if it.get("key") or it.get("all_configs") or per_item >= n:
             continue
         chosen = {(i * per_item + salt + k * (n // per_item if per_item else 1) + (i // n)) % n for k in range(per_item)}
         k = 0
